@@ -17,7 +17,7 @@ NUM = {
     "Device": ["carbon_footprint_fabrication", "power", "lifespan", "fraction_of_usage_time"],
 }
 FACTORS = [0.5, 2, 1.37, 10, 3600, 0.001]
-CAP_HOURS = {"request_duration": 6.0, "user_time_spent": 12.0}
+CAP_HOURS = {"request_duration": 6.0, "user_time_spent": 12.0, "video_duration": 6.0}
 ZERO_OK = {"data_transferred", "data_stored", "user_time_spent", "base_ram_consumption", "base_compute_consumption",
            "idle_power", "base_storage_need"}
 ALT_UNITS = {"kB": ("MB", 1e-3), "MB": ("kB", 1e3), "GB": ("MB", 1e3), "TB": ("GB", 1e3), "s": ("min", 1 / 60), "min": ("s", 60.0),
@@ -113,7 +113,9 @@ def describe(edit):
 # ---- generation -------------------------------------------------------------------------------------------------------
 def num_edit(rnd, spec, targets=None):
     O = spec["objects"]
-    cands = [(n, p) for n, o in O.items() if o["cls"] in NUM for p in NUM[o["cls"]] if p in o["params"] and o["params"][p][0] == "q"]
+    # classes of the table above use the listed parameters; any other class (builders, GPU server) every quantity parameter
+    cands = [(n, p) for n, o in O.items() for p in (NUM[o["cls"]] if o["cls"] in NUM else [k for k, v in o["params"].items() if v[0] == "q"])
+             if p in o["params"] and o["params"][p][0] == "q"]
     if targets:
         cands = [c for c in cands if c in targets] or cands
     n, p = rnd.choice(cands)
